@@ -53,3 +53,164 @@ pub fn oracle_sender_alloc(cfg: &LwCfg, _si: &ScriptInfo, tr: &Trace) -> Option<
     }
     None
 }
+
+// ------------------------------------------------------------------------------------------------
+// (a) hostile datagram streams against a lone receiving HalfConnection under the counting allocator
+// ------------------------------------------------------------------------------------------------
+
+use crate::report::Summary;
+use crate::sweep::*;
+use crate::PropRun;
+use serde_json::json;
+use uflow::verif::frame::{DataFrame, Datagram, SyncFrame};
+use uflow::verif::*;
+
+#[derive(Clone, Copy, Debug)]
+pub struct Stream {
+    pub limit: usize,
+    /// claimed number of fragments per packet
+    pub nfrag: usize,
+    /// 0: ids walk inside the window; 1: ids at the window edge; 2: ids outside the window; 3: one fragment each of many packets then sync frames push the window
+    pub walk: u8,
+    /// frame id stride
+    pub stride: u32,
+    /// frames arriving between two calls of step(): 0 = 1, 1 = 50, 2 = 5000 (the API processes frames only inside step(), which flushes first)
+    pub cadence: u8,
+    /// time between steps: 0 = 1 ms, 1 = 20 ms, 2 = 1 s
+    pub flush: u8,
+    pub frames: usize,
+}
+
+pub fn stream_name(s: &Stream) -> String { format!("case:stream:{}:{}:{}:{}:{}:{}:{}", s.limit, s.nfrag, s.walk, s.stride, s.cadence, s.flush, s.frames) }
+pub fn stream_parse(c: &str) -> Option<Stream> { let f: Vec<&str> = c.strip_prefix("case:stream:")?.split(':').collect(); Some(Stream { limit: f[0].parse().ok()?, nfrag: f[1].parse().ok()?, walk: f[2].parse().ok()?, stride: f[3].parse().ok()?, cadence: f[4].parse().ok()?, flush: f[5].parse().ok()?, frames: f[6].parse().ok()? }) }
+
+/// Allowance for state other than packet data: acknowledgement groups for at most two frame windows
+/// (12 B each, VecDeque may hold twice its length), one reassembly bitfield word per 64 claimed
+/// fragments of the packets that fit the limit, the frame being parsed, and 64 kB of slack.
+pub fn allowance(limit: usize) -> usize { ceil_frag(limit) + 4 * 4096 * 12 + (ceil_frag(limit) / FRAG + 1) * 64 + 2 * 1472 + 65_536 }
+
+pub fn run_stream(s: &Stream) -> (Vec<Violation>, u64, Option<String>) {
+    use crate::alloc;
+    let r = guarded(|| {
+        let mut v: Vec<Violation> = Vec::new();
+        set_time_ms(0); seed(5); set_fuel(u64::MAX);
+        let cfg = LwCfg { pwin: 4096, fwin: 4096, pbase: [0, 0xFFFF0], fbase: [0, 0xFFFF_FF00], rx_alloc: [s.limit, s.limit], ..LwCfg::small() };
+        let junk = vec![0x42u8; FRAG];
+        alloc::reset();
+        alloc::set_tracking(true);
+        let mut hc = HalfConnection::new(cfg.half(0));
+        let baseline = alloc::live();
+        let limit_c = ceil_frag(s.limit) as isize;
+        let allow = allowance(s.limit) as isize;
+        let mut now = 0u64; let mut fid = 0xFFFF_FF00u32; let mut pid_off = 0u32; let mut worst = 0isize; let mut worst_alloc = 0usize; let mut worst_ackq = 0usize; let mut delivered = 0u64;
+        let mut h = 0xcbf29ce484222325u64;
+        let burst = [1usize, 50, 5000][s.cadence as usize % 3];
+        let dt = [1u64, 20, 1000][s.flush as usize % 3];
+        let mut facts: Vec<(u8, usize, isize, usize, usize)> = Vec::new(); // (kind, frame no, live, rx_alloc, ackq)
+        for k in 0..s.frames {
+            if k % burst == 0 {
+                // one application round as Client::step / Server::step perform it: flush, (frames), step, receive
+                now += dt; set_time_ms(now);
+                set_fuel(2_000_000);
+                let mut fs = FS(vec![]); hc.flush(&mut fs);
+                drop(fs);
+            }
+            let base = hc.verif_probe().rx_packet_base;
+            let pid = match s.walk { 0 => (base + pid_off % 4096) & 0xFFFFF, 1 => (base + 4095 - (pid_off % 2)) & 0xFFFFF, 2 => (base + 4096 + pid_off % 7) & 0xFFFFF, _ => (base + pid_off % 4096) & 0xFFFFF };
+            pid_off = pid_off.wrapping_add(1);
+            let fragment_id = if s.walk == 3 { 0 } else { (k % s.nfrag.max(1)).min(s.nfrag.saturating_sub(2)) as u16 }; // never the last fragment: packets never complete
+            let last = (s.nfrag - 1) as u16;
+            let len = if s.nfrag == 1 { (k * 37) % (FRAG + 1) } else { FRAG };
+            let dg = Datagram { sequence_id: pid, channel_id: (k % 64) as u8, window_parent_lead: 0, channel_parent_lead: 0, fragment_id: if s.nfrag == 1 { 0 } else { fragment_id }, fragment_id_last: last, data: junk[..len].into() };
+            set_fuel(2_000_000);
+            hc.handle_data_frame(DataFrame { sequence_id: fid, nonce: k % 2 == 0, datagrams: vec![dg] });
+            fid = fid.wrapping_add(s.stride);
+            if s.walk == 3 && k % 64 == 63 { hc.handle_sync_frame(SyncFrame { next_frame_id: Some(fid), next_packet_id: Some((base + 32) & 0xFFFFF) }); }
+            if k % burst == burst - 1 { hc.step(); let mut ps = PS(vec![]); hc.receive(&mut ps); delivered += ps.0.len() as u64; drop(ps); }
+            set_fuel(u64::MAX);
+            let p = hc.verif_probe();
+            let live = alloc::live() - baseline;
+            if live > worst { worst = live; }
+            worst_alloc = worst_alloc.max(p.rx_alloc); worst_ackq = worst_ackq.max(p.ack_queue_len);
+            if p.rx_alloc as isize > limit_c && !facts.iter().any(|f| f.0 == 0) { alloc::set_tracking(false); facts.push((0, k + 1, live, p.rx_alloc, p.ack_queue_len)); alloc::set_tracking(true); }
+            if live > allow && !facts.iter().any(|f| f.0 == 1) { alloc::set_tracking(false); facts.push((1, k + 1, live, p.rx_alloc, p.ack_queue_len)); alloc::set_tracking(true); }
+            if p.ack_queue_len > 2 * 4096 && !facts.iter().any(|f| f.0 == 2) { alloc::set_tracking(false); facts.push((2, k + 1, live, p.rx_alloc, p.ack_queue_len)); alloc::set_tracking(true); }
+            if k % 97 == 0 { h = fnv(h, p.rx_alloc as u64); h = fnv(h, p.ack_queue_len as u64); }
+        }
+        alloc::set_tracking(false);
+        for (kind, k, live, rxa, ackq) in facts {
+            match kind {
+                0 => v.push(viol("C06.rx-alloc", "C06.rx-alloc".into(), format!("after {} hostile frames the receive allocation counter is {} but max_receive_alloc is {} (rounded {})", k, rxa, s.limit, limit_c))),
+                1 => v.push(viol("C06.heap", format!("C06.heap:{}", if ackq > 2 * 4096 { "ack-queue" } else { "other" }), format!("after {} hostile frames the connection holds {} heap bytes above its empty size; max_receive_alloc {} (rounded {}) plus the fixed allowance is {} (receive alloc counter {}, acknowledgement groups queued {})", k, live, s.limit, limit_c, allow, rxa, ackq))),
+                _ => v.push(viol("C06.ack-queue", "C06.ack-queue".into(), format!("after {} hostile frames {} acknowledgement groups are queued; two frame windows hold at most 8192 frames", k, ackq))),
+            }
+        }
+        alloc::set_tracking(true);
+        h = fnv(h, worst as u64 >> 6); h = fnv(h, delivered);
+        drop(hc);
+        alloc::set_tracking(false);
+        let rep = alloc::report();
+        if rep.live_bytes != 0 { v.push(viol("C06.leak", "C06.leak".into(), format!("{} bytes still allocated after dropping the connection", rep.live_bytes))); }
+        (v, h, (worst, worst_alloc, worst_ackq))
+    });
+    crate::alloc::set_tracking(false);
+    set_fuel(u64::MAX);
+    match r {
+        Ok((v, h, _)) => (v, h, None),
+        Err(p) => (vec![], 0xDEAD, Some(p)),
+    }
+}
+
+pub fn streams(quick: bool) -> Vec<Stream> {
+    let mut out = Vec::new();
+    let limits: &[usize] = if quick { &[1, 4000, 1_000_000] } else { &[1, 1448, 4000, 1_000_000] };
+    let nfrags: &[usize] = if quick { &[1, 3, 691, 65536] } else { &[1, 2, 3, 691, 65536] };
+    let strides: &[u32] = if quick { &[1, 33] } else { &[1, 31, 32, 33] };
+    for &limit in limits { for &nfrag in nfrags { for walk in 0..4u8 { for &stride in strides { for cadence in 0..3u8 { for flush in 0..3u8 {
+        if quick && (walk == 2 && stride != 1) { continue; }
+        let frames = if quick { 3 * 4096 + 100 } else { 10 * 4096 };
+        out.push(Stream { limit, nfrag, walk, stride, cadence, flush, frames });
+    } } } } } }
+    out
+}
+
+pub fn build(quick: bool) -> PropRun {
+    let mut units: Vec<Unit> = Vec::new();
+    for s in streams(quick) {
+        units.push(Box::new(move |acc: &mut Acc| {
+            let (v, h, p) = run_stream(&s);
+            acc.evals += 1; acc.transitions += s.frames as u64; acc.outcomes.insert(h);
+            if p.is_some() { acc.panics += 1; }
+            for x in v { acc.violation(stream_name(&s), x); }
+            if s.walk == 0 && s.stride == 33 && s.cadence == 0 && s.flush == 1 { acc.sample(format!("{:?}", s)); }
+        }));
+    }
+    // (b) sender half: link-world executions with the wire-level allocation ledger
+    let mut scs = Vec::new();
+    use crate::lwprops::*;
+    use uflow::SendMode::*;
+    let scripts: Vec<(&str, Vec<Op>, LwCfg)> = vec![
+        ("alloc-3-fragments", (0..6).map(|i| send(i / 3, 0, (i % 2) as u8, if i % 2 == 0 { Reliable } else { Unreliable }, [2000, 1448, 1449, 100, 2897, 1][i])).collect(), LwCfg { pwin: 8, fwin: 8, rx_alloc: [3 * FRAG, 3 * FRAG], ..LwCfg::small() }),
+        ("alloc-1-fragment", (0..5).map(|i| send(0, 0, 0, MODES[i % 4], [1448, 700, 748, 1, 1447][i])).collect(), LwCfg { pwin: 8, fwin: 8, rx_alloc: [1, 1], ..LwCfg::small() }),
+        ("alloc-exact-fit", vec![send(0, 0, 0, Reliable, 4344), send(0, 0, 1, Persistent, 10), send(1, 0, 0, Unreliable, 1448), send(1, 0, 1, Reliable, 2896)], LwCfg { pwin: 4, fwin: 8, rx_alloc: [4344, 4344], ..LwCfg::small() }),
+        ("window-4096-many-small", (0..40).map(|i| send(i / 20, 0, (i % 3) as u8, MODES[i % 3], 10 + i)).collect(), LwCfg { pwin: 4096, fwin: 4096, rx_alloc: [200, 200], ..LwCfg::small() }),
+        ("both-directions", (0..8).map(|i| send(i / 4, i % 2, 0, if i % 3 == 0 { Reliable } else { Unreliable }, 1000 + 300 * i)).collect(), LwCfg { pwin: 4, fwin: 8, rx_alloc: [3000, 5000], ..LwCfg::small() }),
+    ];
+    for (name, ops, cfg) in scripts {
+        let si = std::sync::Arc::new(ScriptInfo::new(ops));
+        let dev = if quick { 6 } else { 9 };
+        let env = LwEnv { fates: &[Fate::Deliver, Fate::Drop, Fate::Dup, Fate::Delay3], deltas: &[20, 0, 2000], dev_rounds: dev, dev_start: 0, max_rounds: dev + crate::props::T_LIVE_ROUNDS, skip_choice: !quick, flush_choice: false, blackouts: &[],
+                          stop_when_idle: true, fair_delta: 20, slow_after: usize::MAX, slow_delta: 250, fuel: 2_000_000 };
+        scs.push(lw_scenario(LwSpec { tag: format!("C06.sender.{}", name), cfg, script: si, env, d: if quick { 2 } else { 3 }, oracles: O_C06B | O_C01 | O_LIVE }));
+    }
+    PropRun { level: "fault_enumeration", scenarios: scs, units, replay_case: Some(replay_case), summary: Summary {
+        rule: "(a) every stream of the generator grid (receiver limit x claimed fragment count x id walk x frame id stride x frames per application round x step spacing; every round is flush, frames, step, receive as Client::step/Server::step perform it), 3-10 windows long, is fed to a lone real receiving HalfConnection under a counting allocator: receive-alloc counter <= limit rounded to a fragment, heap growth above the empty connection <= limit + fixed allowance, acknowledgement queue <= 2 windows, nothing leaked; (b) deviation-bounded link-world exploration with small limits: bytes outstanding on the wire never exceed the peer's limit, never more than a window of packets, no packet discarded for lack of memory; distinct = distinct outcome hash".into(),
+        bounds: json!({"limits": [1, 1448, 4000, 1_000_000], "claimed_fragments": [1, 2, 3, 691, 65536], "id_walks": ["inside window", "window edge", "outside window", "one fragment each + sync frames"], "frame_id_strides": [1, 31, 32, 33], "frames_between_steps": [1, 50, 5000], "step_spacing_ms": [1, 20, 1000], "frames_per_stream": if quick { 3 * 4096 + 100 } else { 10 * 4096 }, "sender_d": if quick { 2 } else { 3 }}),
+        assumptions: vec!["heap allowance above max_receive_alloc: 4*4096 ack groups of 12 B, 64 B per fragment of limit, two frames, 64 kB slack - a closed formula, not measured; streams are several windows long so that any structure growing with the stream exceeds it".into(),
+                          "the allocator counts requested sizes (not allocator-internal rounding) of blocks obtained by the thread while the connection exists".into()],
+        witness_names: WITNESSES.to_vec(), extra: json!({}), exhaustive: true } }
+}
+
+pub fn replay_case(case: &str) -> Vec<Violation> {
+    match stream_parse(case) { Some(s) => { println!("{:?}", s); let (v, _, p) = run_stream(&s); if let Some(p) = p { println!("PANIC inside uflow: {}", p); } v } None => vec![] }
+}
